@@ -247,7 +247,13 @@ accounts: 0 = the calling contract ("mixer"), 1 = a second holder ("sink"), 2 = 
 `ConvertERC20` of the mixer's tokens, then `n` coins are paid out of the module's escrow); `x<n>` mixer calls the precompile `crossChain` with `n` (through the running EVM:
 `transferFrom(mixer → module)` by the precompile, then `burn(module)` for a module-owned token); `c<n>` mixer calls the
 precompile `cancelSendToExternal` on a pending transfer of `n`: the refund is converted back to ERC-20 by the keeper-level
-`ConvertCoin` (nested `mint` to the mixer, `n` coins enter the escrow). -/
+`ConvertCoin` (nested `mint` to the mixer, `n` coins enter the escrow).
+
+For an EXTERNALLY-owned token (kind 1, driven since round 5) the module escrows the ERC-20 and the coin is minted / burnt:
+the `<escrow>` column is the supply of the pair's coin over all its denominations (what the module's ERC-20 balance has to
+equal); `b<n>` = keeper-level `transfer(mixer → module)` and `n` coins minted; `x<n>` = `transferFrom(mixer → module)` by
+the precompile through the running EVM and `n` coins minted (a native action: the second step); `c<n>` = keeper-level
+`transfer(module → mixer)` and `n` coins burnt. -/
 
 def parseStep (kind : Nat) (w : String) : Option (List MStep) :=
   match w.toList with
@@ -259,9 +265,10 @@ def parseStep (kind : Nat) (w : String) : Option (List MStep) :=
     | some n =>
       if c = 't' then some [.evm (transfer 0 1 n) 0]
       else if c = 'a' then some [.evm (approve 0 3 n) 0]
-      else if c = 'b' then some [.nested (if kind = 0 then burn 0 n else transfer 0 2 n) n 0]
-      else if c = 'c' then some [.nested (if kind = 0 then mint 0 n else transfer 2 0 n) 0 n]
-      else if c = 'x' then some (if kind = 0 then [.evm (transferFrom 3 0 2 n) 0, .evm (burn 2 n) n] else [.evm (transferFrom 3 0 2 n) n])
+      else if c = 'b' then some [if kind = 0 then .nested (burn 0 n) n 0 else .nested (transfer 0 2 n) 0 n]
+      else if c = 'c' then some [if kind = 0 then .nested (mint 0 n) 0 n else .nested (transfer 2 0 n) n 0]
+      else if c = 'x' then some (if kind = 0 then [.evm (transferFrom 3 0 2 n) 0, .evm (burn 2 n) n]
+                                 else [.evm (transferFrom 3 0 2 n) 0, .nested (.done true) 0 n])
       else none
   | [] => none
 
